@@ -8,6 +8,7 @@ THEOREMS = ["Sb.C15.mergeAll_contains", "Sb.C15.mergeAll_attained", "Sb.C15.merg
 RULE = ("trajectory files (version 1/2, with/without checksum) with 0..8 segments whose x, y, z encodings are constant, linear or cubic in "
         "every combination, scales {1, 2, 10, 127}, coordinates small, seeded and at the int16 extremes, cubic shapes with interior extrema "
         "(overshoot, S-curves, zero end velocities); each loaded through a descriptor and from memory (answers must be bitwise equal); "
+        "cubic encodings of lower-degree curves (degree-elevated quadratics, symmetric and collinear control points: exact cubic coefficient 0); "
         "histories of 2..8 same-length trajectories loaded one after the other from one caller buffer overwritten in place and through a descriptor; "
         "a separate stream with degree-7 encodings (recorded finding). Non-trivial: at least one segment.")
 ASSUMPTIONS = ["containment / tightness are decided exactly (Sturm sequences) against the exact Bezier polynomials, up to the float tolerance 64*2^-24*sum|coefficients| per segment"]
@@ -62,6 +63,27 @@ def generate(rng, tier):
             files.append(hx(skyb(build(scale, start, segs))))
         if len(set(len(f) for f in files)) == 1:
             out.append(("statsseq " + " ".join(files), True))
+    # cubic encodings of lower-degree curves (degree-elevated quadratics, symmetric control points, equally spaced collinear
+    # points): the exact cubic coefficient is 0, the float one is rounding noise
+    for i in range(240 if tier == "thorough" else 60):
+        scale = rng.choice([1, 2, 10, 127])
+        kind = i % 3
+        if kind == 0:
+            q0, q1, q2 = (3 * rng.randint(-900, 900) for _ in range(3))
+            ctrl = [q0, (q0 + 2 * q1) // 3, (2 * q1 + q2) // 3, q2]
+        elif kind == 1:
+            a, b = rng.randint(-2500, 2500), rng.randint(-2500, 2500)
+            ctrl = [a, b, b, a]
+        else:
+            a, d = rng.randint(-2000, 2000), rng.randint(-300, 300)
+            ctrl = [a, a + d, a + 2 * d, a + 3 * d]
+        ax = rng.randrange(3)
+        start = [rng.randint(-500, 500) for _ in range(3)]
+        start[ax] = ctrl[0]
+        pts = [[], [], []]
+        pts[ax] = ctrl[1:]
+        blk = build(scale, tuple(start) + (0,), [(rng.choice([1000, 5000, 20000]), pts[0], pts[1], pts[2], [])])
+        out.append((f"stats {hx(skyb(blk))} B", True))
     # no segments at all / scale 0
     out.append((f"stats {hx(skyb(build(1, (5, 6, 7, 0), [])))} B", False))
     out.append((f"stats {hx(skyb(build(0, (5, 6, 7, 0), [(1000, [1], [2], [3], [])])))} B", False))
